@@ -43,21 +43,6 @@ ApplyDiff(st, d, j) ==
 PostStore(st, S) ==
   [ApplyDiff(IF S.reset THEN EmptyStore ELSE st, S.d, 1) EXCEPT !.lastId = S.lastId, !.wlog = <<>>]
 
-(***************************************************************************)
-(* Observations as sets                                                    *)
-(***************************************************************************)
-PSet(o) == { o.pages[j].l : j \in 1..Len(o.pages) }
-CSet(o) == { o.pages[j].l : j \in { i \in 1..Len(o.pages) : o.pages[i].cr } }
-WSet(o) == { <<o.we[j].l, o.we[j].id>> : j \in 1..Len(o.we) }
-OutT(o) == { <<o.outs[j].s, o.outs[j].t, o.outs[j].w>> : j \in 1..Len(o.outs) }
-InT(o)  == { <<o.ins[j].s, o.ins[j].t, o.ins[j].w>> : j \in 1..Len(o.ins) }
-
-(* the abstract state the implementation itself reports, completed with    *)
-(* what only the files show (rule flags, findable set, header id)          *)
-AbsPre(o, st) ==
-  [pages |-> PSet(o), crawled |-> CSet(o), links |-> OutT(o), we |-> WSet(o),
-   flags |-> RuleFlagsOf(st.trie), lastId |-> st.lastId, known |-> KnownOf(st.trie)]
-
 EmptyObs == [pages |-> <<>>, npages |-> 0, ncrawled |-> 0, nlinks |-> 0, we |-> <<>>,
              outs |-> <<>>, ins |-> <<>>, lenT |-> 0, lenL |-> 0]
 
@@ -87,12 +72,7 @@ ImplStep(st, rm, d, S) ==
     [] S.op = "AddRule"  -> AddRuleReq(st, rm, d, a.anchor, a.rule, a.wr).res
     [] S.op = "RemoveRule" -> RemoveRuleReq(st, rm, a.anchor).res
 
-RECURSIVE AbsInstall(_, _, _, _, _)
-AbsInstall(A, rm, d, rules, i) ==
-  IF i > Len(rules) THEN A
-  ELSE LET rm2 == RamSet(rm, rules[i].anchor, rules[i].rule) IN
-       AbsInstall(AbsAddRule(A, rm2, d, rules[i].anchor, TRUE, <<>>).A, rm2, d, rules, i + 1)
-AbsFresh(d, rules) == NoReport(AbsInstall(EmptyAbs, EmptyRam, d, rules, 1), "")
+AbsFresh(d, rules) == NoReport(AbsInstallRules(EmptyAbs, EmptyRam, d, rules, 1), "")
 
 AbsStep(A, st, rm, d, S) ==
   LET a == S.a IN
